@@ -31,7 +31,8 @@ META = {
     "bounds": {
         "quick": {"threads": 2, "rounds_per_thread": "1+1 with <= 2 preemptions; 1+2 with <= 1 preemption", "preemptions": "<= 2",
                   "granularity": "every statement of the rewritten functions + load/store of augmented attribute/subscript assignment"},
-        "thorough": {"threads": "2 and 3", "rounds_per_thread": "1+2 and 2+2 (2 threads), 1+1+1 (3 threads)", "preemptions": "<= 2"},
+        "thorough": {"threads": "2 and 3", "rounds_per_thread": "1+2 and 2+2 (2 threads), 1+1+1 (3 threads)",
+                     "preemptions": "<= 2 (3 threads: every single preemption; two preemptions at most 48 steps apart)"},
     },
     "out_of_scope": [
         "preemption inside a statement other than the load/store split (bytecode level)", "the interior of transform() (it execs into "
@@ -381,6 +382,7 @@ def build(case):
     nthreads, rounds, P = p["threads"], p["rounds"], p["P"]
     lo, hi = p.get("lo", 0), p.get("hi", 400)
     MAXPOS = p.get("maxpos", 400)
+    window = p.get("window")  # thorough 3-thread tier: the second preemption at most `window` steps after the first
 
     def run(*a):
         pos = []
@@ -394,8 +396,11 @@ def build(case):
                 assume(a[2 * k] == 0)
                 v = MAXPOS
             else:
-                j = pick(a[2 * k] - prev - 1, MAXPOS - prev)  # prev+1 .. MAXPOS
+                span = MAXPOS - prev if not window else min(MAXPOS - prev, window + 1)
+                j = pick(a[2 * k] - prev - 1, span)  # prev+1 .. MAXPOS, or (windowed) prev+1 .. prev+window and "none"
                 v = prev + 1 + j
+                if window and j == span - 1:
+                    v = MAXPOS
             prev = v
             if v == MAXPOS or nthreads == 2:
                 assume(a[2 * k + 1] == 0)
@@ -443,7 +448,8 @@ def cases(tier, seed):
     if th:
         shards("2thr-rounds12-P2", {"threads": 2, "rounds": [1, 2], "P": 2}, 8, 256, 20000)
         shards("2thr-rounds22-P2", {"threads": 2, "rounds": [2, 2], "P": 2}, 8, 336, 20000)
-        shards("3thr-1round-P2", {"threads": 3, "rounds": [1, 1, 1], "P": 2}, 8, 256, 20000)
+        shards("3thr-1round-P1", {"threads": 3, "rounds": [1, 1, 1], "P": 1}, 32, 256, 20000)
+        shards("3thr-1round-P2w", {"threads": 3, "rounds": [1, 1, 1], "P": 2, "window": 48}, 8, 256, 20000)
     cs.append({"id": "validate-model-on-real-threads", "kind": "special", "params": {"n": 40 if th else 12, "seed": seed}})
     cs.append({"id": "2thr:twin", "params": {"threads": 2, "rounds": [1, 1], "P": 2, "lo": 0, "hi": 11, "maxpos": 176},
                "vacuity_twin": True, "stop_on_refute": True, "budget_s": 100})
